@@ -101,9 +101,12 @@ class OracleSink:
         self.evaluations = 0
         self.nontrivial = set()
         self.first = {}
+        self.pool = []          # a sample of the cases, for the history stream of the search
 
-    def consider(self, b, code, nb, real):
+    def consider(self, b, code, nb, real, names=None):
         self.evaluations += 1
+        if self.evaluations % 4 == 0 and len(self.pool) < 6000:
+            self.pool.append({"block": b, "code": code, "nb": nb, "names": names, "real": real})
         if nontrivial(b):
             self.nontrivial.add(hash(code))
         for sig, what in tc.oracle(nb, real):
@@ -128,7 +131,7 @@ def correspond(rng, tier, driver):
 
     def flush(cases):
         lines, spec_lines, spec_idx = [], [], []
-        for i, (b, code, nb, real) in enumerate(cases):
+        for i, (b, code, nb, real, names) in enumerate(cases):
             w = tc.wire(nb)
             lines.append("tifaflow " + w)
             if not (tc.has_kind(nb, "wh") or tc.has_kind(nb, "for")) and tc.count_paths(nb) <= tc.PATH_CAP:
@@ -136,7 +139,7 @@ def correspond(rng, tier, driver):
                 spec_lines.append("tifaspec " + w)
         answers = driver.ask(lines)
         spec_answers = driver.ask(spec_lines)
-        for (b, code, nb, real), ans, req in zip(cases, answers, lines):
+        for (b, code, nb, real, names), ans, req in zip(cases, answers, lines):
             model = tc.parse_model(ans)
             res.evaluations += 1
             kinds = "+".join(k for k in ("if", "wh", "for") if tc.has_kind(nb, k)) or "straight"
@@ -151,9 +154,9 @@ def correspond(rng, tier, driver):
             if real != model and len(res.disagreements) < 50:
                 res.disagreements.append({"case": {"block": b, "code": code}, "real": real, "model": model,
                                           "request": req})
-            sink.consider(b, code, nb, real)
+            sink.consider(b, code, nb, real, names)
         for i, ans in zip(spec_idx, spec_answers):
-            b, code, nb, real = cases[i]
+            b, code, nb, real, names = cases[i]
             lean_spec = tc.parse_spec(ans)
             py_spec = tc.read_classes_ordered(nb)
             res.count("spec-crosscheck")
@@ -168,7 +171,7 @@ def correspond(rng, tier, driver):
         variant = srng.choice([0, 0, 0, 1, 2, 3]) if srng is not None else 0
         res.count("call-variant:%d" % variant)
         res.count("eol:%r names:%s" % (style.eol, "ascii" if style.names is tc.NAMES else ("builtin-like" if style.names is tc.BUILTIN_LIKE_NAMES else "non-ascii")))
-        batch.append((b, code, nb, tc.run_real(code, style.names, variant)))
+        batch.append((b, code, nb, tc.run_real(code, style.names, variant), style.names))
         if len(samples) < 5:
             samples.append(code)
         if len(batch) >= 4000:
@@ -183,6 +186,128 @@ def correspond(rng, tier, driver):
 def tc_canon(sig):
     import json
     return json.dumps(sig, sort_keys=True)
+
+
+def history_stream(rng, tier, broken, pool, fun_codes):
+    """The history dimension of the real-code side: a sample of the generated programs is analysed AFTER one or two
+    other programs by the same TIFA instance (every spelling of tc.HISTORY_APIS in turn); what is reported for it -
+    issues and variable states - must be what a fresh analysis reports (which the correspondence and the path oracle
+    have judged), and the results handed out for the earlier programs must not change afterwards."""
+    n = (1500 if tier == "quick" else 12000) * (2 if broken else 1)
+    odd = [{"code": c, "block": None, "names": None, "real": None} for c in tc.odd_earlier_programs()]
+    funs = [{"code": c, "block": None, "names": None, "real": None} for c in fun_codes]
+    flow = [e for e in pool if "issues" in (e["real"] or {})]
+    info = {"histories": 0, "with_different_issues": 0, "by_api": {}, "earlier_kinds": {"flow": 0, "functions": 0, "odd": 0}}
+    if not flow:
+        return [], info
+    fresh_cache = {}
+
+    def fresh(code):
+        if code not in fresh_cache:
+            fresh_cache[code] = tc.run_fresh_full(code)
+        return fresh_cache[code]
+
+    def flagged(e):
+        return {(lab, name) for lab, name, _ in e["real"]["issues"]}
+
+    def assigned(b):
+        out = set()
+        for s in b:
+            if s[0] in ("as", "for"):
+                out.add(tc.NAMES[s[1]])
+            for sub in s[1:]:
+                if isinstance(sub, list) and sub and isinstance(sub[0], list):
+                    out |= assigned(sub)
+        return out
+
+    def pick_earlier(test):
+        r = rng.random()
+        if r < 0.12:
+            info["earlier_kinds"]["odd"] += 1
+            return rng.choice(odd)
+        if r < 0.27 and funs:
+            info["earlier_kinds"]["functions"] += 1
+            return rng.choice(funs)
+        info["earlier_kinds"]["flow"] += 1
+        cands = [rng.choice(flow) for _ in range(8)]
+        if test["real"] is None:
+            return cands[0]
+        mine = flagged(test)
+        mine_names = {name for _, name in mine}
+
+        def score(e):
+            theirs = flagged(e)
+            sc = len(theirs - mine) + len(mine - theirs)
+            if e["names"] is test["names"]:
+                sc += 2               # same spelling of the variables: stale state would be about the SAME names
+                if assigned(e["block"]) & mine_names:
+                    sc += 2           # it assigns what the program under test reads unassigned
+            return sc
+        return max(cands, key=score)
+
+    first = {}
+    for i in range(n):
+        test = rng.choice(funs) if (funs and i % 6 == 5) else rng.choice(flow)
+        earlier = []
+        for _ in range(1 if rng.random() < 0.6 else 2):
+            e = pick_earlier(test)
+            if e["code"] != test["code"] and e["code"] not in [x["code"] for x in earlier]:
+                earlier.append(e)
+        if not earlier:
+            continue
+        api = tc.HISTORY_APIS[i % len(tc.HISTORY_APIS)]
+        codes = [e["code"] for e in earlier]
+        f = fresh(test["code"])
+        fe = [fresh(c) for c in codes]
+        info["histories"] += 1
+        info["by_api"][api] = info["by_api"].get(api, 0) + 1
+        if any(x.get("issues") != f.get("issues") for x in fe):
+            info["with_different_issues"] += 1
+        verdict, got = tc.history_verdict(codes, test["code"], api, f, fe)
+        for kind, txt in verdict:
+            sig = {"kind": "history-dependent", "what": kind, "api": "tifa_analysis" if "tifa_analysis" in api else "process_code"}
+            first.setdefault(tc_canon(sig), (sig, txt, earlier, test, api, got))
+    failures = []
+    for key, (sig, txt, earlier, test, api, got) in first.items():
+        def still(codes, code, api=api, sig=sig):
+            return any(k == sig["what"] for k, _ in tc.history_verdict(codes, code, api)[0])
+        codes, code = [e["code"] for e in earlier], test["code"]
+        cur_nb, cur_names = test.get("nb"), test["names"]
+        for j in range(len(codes) - 1, -1, -1):                    # fewer earlier programs
+            if len(codes) > 1 and still(codes[:j] + codes[j + 1:], code):
+                codes = codes[:j] + codes[j + 1:]
+        if test["block"] is not None and still(codes, tc.render(test["block"])[0]):    # a smaller program under test
+            small = tc.shrink(test["block"], lambda bb: still(codes, tc.render(bb)[0]))
+            code, cur_nb = tc.render(small)
+            cur_names = tc.NAMES
+        elif test["block"] is None:
+            code = fs.shrink(code, lambda src: still(codes, src))
+        for at in range(len(codes)):                                                    # earlier programs given as text
+            if not any(e["code"] == codes[at] and e["block"] is not None for e in earlier):
+                codes[at] = fs.shrink(codes[at], lambda src, at=at: still(codes[:at] + [src] + codes[at + 1:], code))
+        for j, e in enumerate(earlier):                                                 # smaller earlier programs
+            if e["code"] in codes and e["block"] is not None:
+                at = codes.index(e["code"])
+                def still_e(bb, at=at):
+                    return still(codes[:at] + [tc.render(bb)[0]] + codes[at + 1:], code)
+                if still_e(e["block"]):
+                    codes[at] = tc.render(tc.shrink(e["block"], still_e))[0]
+        v2, got2 = tc.history_verdict(codes, code, api)
+        txt2 = ([t for k, t in v2 if k == sig["what"]] or [txt])[0]
+        f2 = tc.run_fresh_full(code)
+        verdict_on_stale = ""
+        if test["block"] is not None and "issues" in got2 and sig["what"] == "issues":
+            stale = tc.oracle(cur_nb, tc.back_names(got2["issues"], cur_names))
+            own = tc.oracle(cur_nb, tc.back_names(f2.get("issues", []), cur_names)) if "issues" in f2 else []
+            new = [s for s, _ in stale if s not in [o for o, _ in own]]
+            if new:
+                verdict_on_stale = " | path oracle on that result: %s" % json.dumps(new[:3])
+        failures.append(Failure(sig, "%s [%s]%s | analysed first: %s | program under test: %s"
+                                % (txt2, api, verdict_on_stale, " ;; ".join(c.rstrip().replace("\n", " / ") for c in codes),
+                                   code.rstrip().replace("\n", " / ")),
+                                {"stream": "history", "api": api, "earlier": codes, "code": code,
+                                 "fresh": f2, "with_history": got2}))
+    return failures, info
 
 
 def search(rng, tier, broken, corr):
@@ -201,7 +326,7 @@ def search(rng, tier, broken, corr):
         b = tc.gen_pattern(rng, kinds) if i % 2 else tc.gen_case(rng, kinds=kinds)
         style = tc.Style(rng)
         code, nb = tc.render_safe(b, style)
-        sink.consider(b, code, nb, tc.run_real(code, style.names, rng.choice([0, 1, 2, 3])))
+        sink.consider(b, code, nb, tc.run_real(code, style.names, rng.choice([0, 1, 2, 3])), style.names)
     failures = []
     for key, (sig, what, b) in sink.first.items():
         def still(bb):
@@ -216,8 +341,11 @@ def search(rng, tier, broken, corr):
     # programs WITH function definitions and calls (outside the Lean model): CPython's own executions are the oracle
     nfun = (1500 if tier == "quick" else 25000) * (3 if broken else 1)
     fun_first, fun_err_programs = {}, 0
+    fun_codes = []
     for i in range(nfun):
         code = fs.gen(rng)
+        if len(fun_codes) < 400:
+            fun_codes.append(code)
         found, errs = fs.judge(code, i % 2)
         fun_err_programs += 1 if errs else 0
         for sig, what in found:
@@ -230,10 +358,20 @@ def search(rng, tier, broken, corr):
         failures.append(Failure(sig, (w2[0] if w2 else what) + " | program: " + small.rstrip("\n").replace("\n", " / "),
                                 {"code": small, "stream": "functions"}))
     info["function_programs"] = {"evaluated": nfun, "with_a_real_NameError": fun_err_programs}
-    info["evaluations"] = sink.evaluations + nfun
+    hist_failures, hist_info = history_stream(rng, tier, broken, sink.pool, fun_codes)
+    failures.extend(hist_failures)
+    info["history_stream"] = hist_info
+    info["evaluations"] = sink.evaluations + nfun + hist_info["histories"]
     info["rule"] += (" | functions stream: generated programs with def/global/call/if/while on input() are really executed "
                      "under every input() answer vector; every line where NameError/UnboundLocalError is raised must "
-                     "carry an initialisation-type TIFA issue")
+                     "carry an initialisation-type TIFA issue"
+                     " | history stream: a sample of all these programs is analysed after one or two OTHER programs (flow programs "
+                     "chosen to be flagged differently / to assign what the program under test reads unassigned, function programs, "
+                     "a program that does not parse, an empty one, def/class/import/del/try/with/loop-else programs, all-names-assigned "
+                     "and all-names-read programs) by ONE TIFA instance - tifa_analysis(code) on one report, contextualize_report("
+                     "clear=False) + tifa_analysis(), an own Report, one Tifa object's process_code() on an own / the main report; the "
+                     "flow issues (label, name, line, with duplicates) and the (set, read, over) state of every variable must equal "
+                     "those of a fresh analysis, and results already handed out for the earlier programs must not change")
     info["distinct_nontrivial"] = len(sink.nontrivial)
     info["oracle_skipped_too_many_paths"] = tc.ORACLE_SKIPPED[0]
     info["samples"] = [f.replay["code"] for f in failures][:3]
@@ -243,6 +381,17 @@ def search(rng, tier, broken, corr):
 def replay(payload):
     rp = payload.get("replay") or {}
     b = rp.get("block")
+    if rp.get("stream") == "history":
+        print("analysed first:")
+        for c in rp["earlier"]:
+            print("---\n" + c)
+        print("--- program under test\n" + rp["code"])
+        print("api   :", rp["api"])
+        print("fresh :", tc.run_fresh_full(rp["code"]))
+        verdict, got = tc.history_verdict(rp["earlier"], rp["code"], rp["api"])
+        print("after :", got)
+        print("verdict:", verdict)
+        return 0
     if b is None:
         print(json.dumps(payload, indent=1)[:4000])
         return 0
